@@ -3,6 +3,8 @@
 // Wide values (anything that may exceed 31 bits) are written as sign + little-endian
 // base-256 digits: {"n":0|1,"d":[...]} so that TLC (32-bit ints) can do exact arithmetic.
 
+#include <unistd.h>
+
 #include <cinttypes>
 #include <cstdint>
 #include <cstdio>
@@ -128,7 +130,11 @@ struct Out
   unsigned long n = 0;
   bool open(const char* path)
   {
-    f = std::fopen(path, "w");
+    f = std::fopen(path, "a"); // append mode: forked children may write to the same file
+    if (f) {
+      if (::ftruncate(fileno(f), 0) != 0) {
+      }
+    }
     return f != nullptr;
   }
   void put(Ev& e)
